@@ -129,11 +129,12 @@ def body(ctx):
         traces.append(tr)
         meta.append(dict(kind='paired-session', mode=mode, spec=spec))
     # 3b corruption of a 64-byte payload: every bit, every byte
-    payload = bytes(range(64, 128))
-    muts = [(i, 1 << b) for i in range(64) for b in range(8)] + [(i, 0xFF) for i in range(64)]
-    if ctx.quick:
-        muts = muts[::5] + [(i, 0xFF) for i in range(0, 64, 3)]
-    for (i, x) in muts:
+    allmuts = [(i, 1 << b) for i in range(64) for b in range(8)] + [(i, 0xFF) for i in range(64)]
+    cases = []
+    for pi, payload in enumerate([bytes(range(64, 128)), b'\x00' * 64, b'\xff' * 64]):     # a payload whose genuine checksum is 0 included
+        ms = allmuts if not ctx.quick else (allmuts[pi::5] + [(i, 0xFF) for i in range(pi, 64, 3)])
+        cases += [(payload, i, x) for (i, x) in ms]
+    for (payload, i, x) in cases:
         mode = ('sync', 'async')[(i + x) % 2]
         dev = simdev.SimDevice()
         dev.shell_scripts[b'shell:x'] = [payload, b'tail']
@@ -150,7 +151,7 @@ def body(ctx):
         o2 = sess.call('close')
         sess.close_loop()
         traces.append([dict(ev='corrupt', cls=o.exc_name or 'returned', leak=(o.kind == 'ret'))])
-        meta.append(dict(kind='corruption', byte=i, xor=x, mode=mode))
+        meta.append(dict(kind='corruption', payload_first_byte=payload[0], byte=i, xor=x, mode=mode))
     # 3c unknown command words
     words = set()
     for w in wire.CMD_WORD.values():
